@@ -219,7 +219,7 @@ func (m *Muxer) WriteData(d *MuxerData) (int, error) {
 		if writeAf {
 			pkt.AdaptationField = d.AdaptationField
 			// one byte for adaptation field length field
-			pktLen += 1 + int(calcPacketAdaptationFieldLength(d.AdaptationField))
+			pktLen += 1 + calcPacketAdaptationFieldSize(d.AdaptationField)
 			writeAf = false
 		}
 
